@@ -51,4 +51,19 @@ PROPS = {
         "assumes": ["std Write::write_all loop, Vec::with_capacity(16384) giving capacity exactly 16384 and never reallocating, "
                     "itoap producing `decimal v` (all validated by the wr stream)"],
     },
+    "C16": {
+        "streams": [
+            {"name": "tx_scan", "module": "tx", "quick": 1500, "thorough": 40000, "profiles": ["debug", "release"],
+             "oracle_prefix": "o_tx", "args": {"kind": "scan"}},
+            {"name": "o_tx_scan", "module": "tx", "quick": 1500, "thorough": 40000, "kind": "oracle",
+             "profiles": ["debug"], "args": {"kind": "scan", "prefix": "o_tx"}},
+        ],
+        "rule": "complete enumeration of all strings of length <= 4 (thorough: <= 5) over {space, tab, CR, LF, x} x all start offsets "
+                "x the four scanners x patterns {empty, prefix, longer than input, mismatch at each position}, delivered one byte per "
+                "read (buffered-byte count compared), plus random longer inputs with arbitrary buffering; non-trivial = input of at "
+                "least 2 bytes; distinct by case text",
+        "theorems_note": "Props/C16.v: for every admissible abstract run on every view: exact offset, nothing consumed, highest offset "
+                         "asked for is minimal",
+        "assumes": ["the scanners are modelled as parser programs (Text.v); program-to-reader link by the tx stream and Simulation.v"],
+    },
 }
